@@ -86,6 +86,9 @@ class SArr:
         bidx = self.imap(tuple(idx))
         for gname, g in getattr(b, 'guards', []):
             _CUR['I'].ctx.prove(gname + '/frame:write-inside-modifies', g(bidx), 'frame')
+        co = getattr(b, 'coerce', None)
+        if co is not None:
+            val = co(val)
         b.get = lambda q: _ite(sym.And(*[sym.eq(x, y) for x, y in zip(q, bidx)]), val, old(q))
         b.writes += 1
 
@@ -100,10 +103,13 @@ class SArr:
             cond = sym.Implies(sym.And(inview, cond_fn(vv), *[sym.And(sym.ge(x, 0), sym.lt(x, n)) for x, n in zip(qq, b.shape)]), g(qq))
             _CUR['I'].ctx.prove(gname + '/frame:write-inside-modifies', z3.ForAll(list(qq), cond) if is_sym(cond) else cond, 'frame')
 
+        co = getattr(b, 'coerce', None)
+
         def newget(q):
             inview, v = inv(q)
             c = sym.And(inview, cond_fn(v))
-            return _ite(c, val_fn(v), old(q))
+            nv = val_fn(v)
+            return _ite(c, co(nv) if co is not None else nv, old(q))
         b.get = newget
         b.writes += 1
 
@@ -321,6 +327,11 @@ def setitem(I, a, idx, val):
     if is_basic(idx):
         v = basic_index(I, a, idx)
         if isinstance(val, SArr):
+            if val.buf is a.buf:
+                # the value is a view of the target's own buffer (e.g. the store that ends `a[i] += x`): it is read
+                # as it stands before this store
+                og, vm = val.buf.get, val.imap
+                val = SArr(val.shape, (lambda og, vm: (lambda q: og(vm(tuple(q)))))(og, vm), val.kind, tag='frozen')
             vv = broadcast_to(val, v.shape)
             v.write_where(lambda q: True, lambda q: vv.get(q))
         elif isinstance(val, (list, tuple)):
@@ -845,7 +856,10 @@ class AbstractMean:
 
 def sum_of(I, a):
     I.ctx.trust('numpy.sum: uninterpreted')
-    return I.ctx.fresh('sum', 'Real' if a.kind == 'f' else 'Int')
+    s = I.ctx.fresh('sum', 'Real' if a.kind == 'f' else 'Int')
+    # ghost record: which buffer (and which state of it) the symbol is the sum of
+    I.ctx.ghost.setdefault('sums', []).append(dict(symbol=s, buf=a.buf, writes=a.buf.writes, whole=a.shape == a.buf.shape))
+    return s
 
 
 # ---- numpy module functions -------------------------------------------------
@@ -922,7 +936,13 @@ def _zeros(I, args, kw):
         shp = (shp,)
     k = dtype_kind(dt)
     zero = {'f': Fraction(0), 'i': 0, 'b': False}.get(k, 0)
-    return SArr(tuple(shp), lambda q: zero, k, tag='zeros')
+    r = SArr(tuple(shp), lambda q: zero, k, tag='zeros')
+    if isinstance(dt, str) and dt.lstrip('<>=|') in ('uint8', 'u1', 'B'):
+        # storing into an unsigned byte array: C conversion of the value to an integer, kept modulo 256
+        I.ctx.trust('numpy uint8 store: value truncated toward zero, then modulo 256 (wrap-around)')
+        r.buf.coerce = lambda v: sym.mod(sym.trunc(v), 256)
+        r.attrs['itemtype'] = 'uint8'
+    return r
 
 
 def _ma_zeros(I, args, kw):
@@ -945,9 +965,45 @@ def _zeros_like(I, args, kw):
 @_np('diff')
 def _diff(I, args, kw):
     a = _as_arr(I, args[0])
-    if kw.get('axis') not in (None, 0, -1) or len(args) > 1:
-        raise Unsupported('diff with axis/n')
-    return diff1(I, a)
+    ax = kw.get('axis', -1)
+    if len(args) > 1 or 'n' in kw:
+        raise Unsupported('diff with n')
+    if a.ndim == 1:
+        if ax not in (None, 0, -1):
+            raise PyExc('AxisError')
+        return diff1(I, a)
+    if not isinstance(ax, int):
+        raise Unsupported('diff axis')
+    ax = ax % a.ndim
+    I.ctx.trust('numpy.diff: out[..i..] = a[..i+1..] - a[..i..] along the axis')
+    n = sym.sub(a.shape[ax], 1)
+    n = sym.ite(sym.lt(n, 0), 0, n)
+    shp = tuple(n if k == ax else s for k, s in enumerate(a.shape))
+    up = lambda q: tuple(sym.add(x, 1) if k == ax else x for k, x in enumerate(q))
+    return SArr(shp, lambda q: sym.sub(a.get(up(q)), a.get(q)), a.kind, tag='diff')
+
+
+@_np('cumsum')
+def _cumsum(I, args, kw):
+    """numpy.cumsum along one axis: a fresh array c with c[..0..] = a[..0..] and c[..i..] = c[..i-1..] + a[..i..]"""
+    a = _as_arr(I, args[0])
+    ax = kw.get('axis', args[1] if len(args) > 1 else None)
+    if ax is None:
+        if a.ndim != 1:
+            raise Unsupported('cumsum of a flattened n-d array')
+        ax = 0
+    if is_sym(ax):
+        raise Unsupported('symbolic axis')
+    ax = ax % a.ndim
+    I.ctx.trust('numpy.cumsum: c[..0..] = a[..0..], c[..i..] = c[..i-1..] + a[..i..] along the axis')
+    snap, imap = a.buf.get, a.imap           # content at the time of the call
+    aget = lambda q: snap(imap(tuple(q)))
+    out = sym_array('cumsum_%d' % next(_ids), a.shape, a.kind if a.kind in 'fi' else 'f')
+    q = out.idx_vars('cs')
+    prevq = tuple(sym.sub(x, 1) if k == ax else x for k, x in enumerate(q))
+    body = sym.Implies(out.in_range(q), sym.eq(out.get(q), sym.ite(sym.eq(q[ax], 0), aget(q), sym.add(out.get(prevq), aget(q)))))
+    I.ctx.assume(z3.ForAll(list(q), body))
+    return out
 
 
 @_np('append')
@@ -988,6 +1044,21 @@ _ufunc1('absolute', sym.abs_)
 _ufunc1('float32', lambda v: sym.to_real(v), 'f')
 _ufunc1('float64', lambda v: sym.to_real(v), 'f')
 _ufunc1('int32', sym.trunc, 'i')
+_LN = z3.Function('ln', z3.RealSort(), z3.RealSort())
+
+
+@_np('log')
+def _log(I, args, kw):
+    """uninterpreted ln; for a concrete argument its sign is a known fact; contracts supply what else they need"""
+    x = args[0]
+    if isinstance(x, SArr):
+        return SArr(x.shape, lambda q: _LN(sym.to_z3(sym.to_real(x.get(q)))), 'f', tag='log', mask=x.mask)
+    r = _LN(sym.to_z3(sym.to_real(x)))
+    if not is_sym(x):
+        if x <= 0:
+            raise Unsupported('log of a non-positive constant')
+        I.ctx.assume(r > 0 if x > 1 else (r == 0 if x == 1 else r < 0))
+    return r
 
 
 @_np('round')
